@@ -47,6 +47,14 @@ unsigned int __CPROVER_uninterpreted_umul32(unsigned int, unsigned int);
 unsigned long __CPROVER_uninterpreted_umul64(unsigned long, unsigned long);
 #define XV_UMUL32(a, b) __CPROVER_uninterpreted_umul32((a), (b))
 #define XV_UMUL64(a, b) __CPROVER_uninterpreted_umul64((a), (b))
+unsigned long __CPROVER_uninterpreted_udiv64(unsigned long, unsigned long);
+unsigned long __CPROVER_uninterpreted_umod64(unsigned long, unsigned long);
+unsigned int __CPROVER_uninterpreted_udiv32(unsigned int, unsigned int);
+unsigned int __CPROVER_uninterpreted_umod32(unsigned int, unsigned int);
+#define XV_UDIV64(a, b) __CPROVER_uninterpreted_udiv64((a), (b))
+#define XV_UMOD64(a, b) __CPROVER_uninterpreted_umod64((a), (b))
+#define XV_UDIV32(a, b) __CPROVER_uninterpreted_udiv32((a), (b))
+#define XV_UMOD32(a, b) __CPROVER_uninterpreted_umod32((a), (b))
 
 static xv_empty xv_empty_value;
 unsigned long __CPROVER_uninterpreted_stdhash(unsigned long);
